@@ -211,7 +211,7 @@ def build_region(r):
                 cur, cnt = inline_helper(cur, hname, hbody, hself)
                 if cnt:
                     r.firings.append({"rule": "R-autoinline", "where": "%s::%s" % (path, r.name), "before": "%s ( )" % hname, "after": "( " + " ".join(hbody)[:200] + " )",
-                                      "note": ("a constant that is not part of the unit (%s) replaced by its literal value" if hself == "const" else "call of a one-expression helper that is not part of the unit (%s) replaced by its body; exact for a parameterless pure accessor / predicate") % hwhere})
+                                      "note": ("call of a helper function that is not part of the unit (%s) expanded at the call site: { let <params> = <args>; <body> } (the helper has no return / ? / loop and is not recursive)" if isinstance(hself, tuple) else "a constant that is not part of the unit (%s) replaced by its literal value" if hself == "const" else "call of a one-expression helper that is not part of the unit (%s) replaced by its body; exact for a parameterless pure accessor / predicate") % hwhere})
             if "@for@" in cont or "nopub" in r.opts:
                 cur = cur[1:]   # trait impl methods carry no visibility
             ann = lex.tokenize(r.body)
@@ -382,6 +382,84 @@ def find_trivial_helper(name, type_hint=None):
     return found[0] if len(found) == 1 else None
 
 
+def find_block_helper(name):
+    """a free function `fn name(p1: T1, ..) [-> R] { body }` of /repo (no self, no generics, no `return` / `?` / `.await` in the body, not recursive)
+    -> (file, [(param tokens, type tokens)], body tokens).  Used to expand a helper that a change introduced at its call sites, so that the
+    caller is verified on what the helper does (rule R-autoinline, block form): `name(a1, ..)` -> `{ let p1: T1 = a1; ..; body }`."""
+    import glob
+    found = []
+    for path in sorted(glob.glob(os.path.join(REPO, "src", "**", "*.rs"), recursive=True)):
+        rel = os.path.relpath(path, REPO)
+        try:
+            src = source(rel)
+        except Exception:
+            continue
+        for it in src.items:
+            if it.kind != "fn" or it.name != name or it.is_cfg_test() or it.container:
+                continue
+            toks = rules.apply_rules(list(it.tokens), (), None, "")
+            try:
+                k = toks.index("fn")
+                if toks[k + 2] != "(":
+                    continue        # generics
+                o = k + 2
+                c = lex.match_close(toks, o)
+            except (ValueError, IndexError):
+                continue
+            if "async" in toks[:k]:
+                continue
+            params, cur, i = [], [], o + 1
+            while i < c:
+                t = toks[i]
+                if t in lex.OPEN:
+                    e = lex.match_close(toks, i)
+                    cur.extend(toks[i:e + 1]); i = e + 1
+                    continue
+                if t == ",":
+                    params.append(cur); cur = []
+                else:
+                    cur.append(t)
+                i += 1
+            if cur:
+                params.append(cur)
+            ps = []
+            ok = True
+            for pr in params:
+                if ":" not in pr or "self" in pr:
+                    ok = False; break
+                j = pr.index(":")
+                ps.append((pr[:j], pr[j + 1:]))
+            if not ok:
+                continue
+            b = c + 1
+            while b < len(toks) and toks[b] != "{":
+                if toks[b] in ("(", "[", "<"):
+                    pass
+                b += 1
+            if b >= len(toks) or "impl" in toks[c:b] or "where" in toks[c:b]:
+                continue
+            e = lex.match_close(toks, b)
+            body = toks[b + 1:e]
+            if any(t in ("return", "?", "await", "loop", "while", "for") for t in body) or name in body:
+                continue
+            found.append((rel, [(pa, _flat_paths(ty)) for pa, ty in ps], _flat_paths(body)))
+    return found[0] if len(found) == 1 else None
+
+
+def _flat_paths(toks):
+    """`crate :: a :: b :: T` -> `T`: a unit is one flat file (module structure is dropped by the extraction)"""
+    out, i = [], 0
+    while i < len(toks):
+        if toks[i] == "crate" and i + 1 < len(toks) and toks[i + 1] == "::":
+            i += 2
+            while i + 1 < len(toks) and toks[i + 1] == "::" and toks[i][0].islower():
+                i += 2
+            continue
+        out.append(toks[i])
+        i += 1
+    return out
+
+
 def find_literal_const(name):
     """a `const NAME: T = <literal arithmetic>;` item of /repo (not in a test module) -> (file, initialiser tokens).
     Used to replace a constant that a change introduced by its value (rule R-autoconst)."""
@@ -406,6 +484,37 @@ def find_literal_const(name):
 
 
 def inline_helper(toks, name, body, has_self):
+    if isinstance(has_self, tuple) and has_self[0] == "block":
+        params = has_self[1]
+        out, i, n = [], 0, 0
+        while i < len(toks):
+            if toks[i] == name and i + 1 < len(toks) and toks[i + 1] == "(" and not (i > 0 and toks[i - 1] in (".", "fn", "::")):
+                c = lex.match_close(toks, i + 1)
+                args, cur, k = [], [], i + 2
+                while k < c:
+                    t = toks[k]
+                    if t in lex.OPEN:
+                        e = lex.match_close(toks, k)
+                        cur.extend(toks[k:e + 1]); k = e + 1
+                        continue
+                    if t == ",":
+                        args.append(cur); cur = []
+                    else:
+                        cur.append(t)
+                    k += 1
+                if cur:
+                    args.append(cur)
+                if len(args) == len(params):
+                    out.append("{")
+                    for (pat, ty), a in zip(params, args):
+                        out += ["let"] + pat + [":"] + ty + ["="] + a + [";"]
+                    out += list(body) + ["}"]
+                    i = c + 1
+                    n += 1
+                    continue
+            out.append(toks[i])
+            i += 1
+        return out, n
     if has_self == "const":
         out, n = [], 0
         for i, t in enumerate(toks):
